@@ -30,6 +30,8 @@ func (c Choice) Label() string {
 
 // Scenario is a closed program for X1
 type Scenario struct {
+	// QuiescentCheck is evaluated at every point of an execution at which no thread is enabled
+	QuiescentCheck func(w *World) []Violation
 	Name           string
 	Desc           string
 	Opts           func() WorldOpts
@@ -247,6 +249,11 @@ func (x *X1) run(prefix []int, prefixPoints []point, useCache bool) *Exec {
 				}
 			}
 		}
+		if p.threadsEnabled == 0 && sc.QuiescentCheck != nil && w.R != nil {
+			// nothing can run: whatever comes next is the environment's move. A state a user can observe for as long as
+			// the environment likes - the "as soon as a slot is free" clauses are judged here, not only at the end.
+			w.quiescentViol = append(w.quiescentViol, sc.QuiescentCheck(w)...)
+		}
 		if len(cs) == 0 {
 			if !ctxDone && len(w.S.Live()) > 0 {
 				// end of the scenario: stop the daemons (persist loop) through the runner context
@@ -363,6 +370,7 @@ func (x *X1) finish(ex *Exec) {
 		if x.Sc.Check != nil {
 			vs = append(vs, x.Sc.Check(w, ex)...)
 		}
+		vs = append(vs, w.quiescentViol...)
 		if x.AfterExec != nil {
 			vs = append(vs, x.AfterExec(ex)...)
 		}
